@@ -260,8 +260,17 @@ def main(run):
          "radius_bell = ratio*radius",
          lambda p: dict(radius_bell=p["ratio"] * p["radius"]), dict(ratio=(0.5, 3.0)), "ratio"),
     ]
-    if not thorough:
-        real = real[:3] + real[3:4]
+    # a new parameter may reuse the NAME of the base parameter it replaces (a change of unit, an outer instead of a
+    # core radius): the right-hand side then reads the caller's value, the left-hand side defines the base value
+    real += [
+        ("sphere", [["radius", "nm", 5.0, [0, inf], "volume", "radius in nm"]],
+         "radius = 10.0*radius",
+         lambda p: dict(radius=10.0 * p["radius"]), dict(radius=(2.0, 8.0)), "radius"),
+        ("core_shell_sphere", [["radius", "Ang", 70.0, [0, inf], "volume", "outer radius"]],
+         "radius = radius - thickness",
+         lambda p: dict(radius=p["radius"] - p["thickness"]), dict(radius=(60.0, 90.0)), "radius"),
+    ]
+    stats["same_name_reparameterisations"] = 2
     for bname, pdefs, text, tr, ranges, dpar in real:
         binfo = load_model_info(bname)
         try:
